@@ -160,6 +160,12 @@ example : OrdinarySrc (Tape.str "a.bas") := by
 theorem generated_required_slots (n k : Nat) : Gen.Fn.computeRequiredSlots n k = computeRequiredSlots n k :=
   GenFn.computeRequiredSlots_eq n k
 
+/-- **C02 (sizes at the top of `writeFile`, tied by translation)**: the statements of `writeFile` that
+    compute the number of sectors, the bytes in the last sector, the number of blocks and the sectors
+    in the last block (an empty file still owns one sector), translated from the source on every run,
+    are the model's `layoutOf` for every length -/
+theorem generated_layout (n : Nat) : Gen.Fn.writeFileLayout n = layoutOf n := GenFn.writeFileLayout_eq n
+
 /-- **C02 (a batch that fits on the first side: nothing is lost)**: when every source names a
     readable file with an ordinary 8.3 name, the blocks they need sum to at most 157 and there are
     at most 112 of them, `--create` returns 0 and stores every one of them on side 0; `--extract` of
